@@ -6,6 +6,7 @@ import (
 
 	"github.com/moov-io/ach"
 
+	"verifharness/internal/gen"
 	"verifharness/internal/rng"
 )
 
@@ -275,7 +276,20 @@ func Perturb(r *rng.R, f *ach.File, kind int) (desc string, t Target, batchLevel
 		desc = "last entry removed"
 	case 18:
 		// addenda list
-		if t.IAT {
+		if r.Chance(1, 2) {
+			// an addenda record of another type (second NOC record, return addenda on a forward entry, ...)
+			var d string
+			var ok bool
+			if t.IAT {
+				d, ok = gen.OddAddendaIn(r, nil, []*ach.IATBatch{&f.IATBatches[t.Idx]})
+			} else {
+				d, ok = gen.OddAddendaIn(r, []ach.Batcher{f.Batches[t.Idx]}, nil)
+			}
+			if !ok {
+				return "no addenda variation applicable", t, true, false
+			}
+			desc = d
+		} else if t.IAT {
 			en := f.IATBatches[t.Idx].Entries[r.Intn(len(es))]
 			if len(en.Addenda17) > 0 && r.Bool() {
 				en.Addenda17 = en.Addenda17[:len(en.Addenda17)-1]
